@@ -152,11 +152,43 @@ def restart_family(sc):
             b["extra_files"] = {"restart_in.nc": src}
             b["warm"] = dict(name="restart_in.nc", idx=f["idx"], init=dict(parts=parts, npid=npid, born=born))
             b["outname"] = "out_%03d.nc" % (f["idx"] + 1)
+            keep2 = os.path.join(keep, "chain")
+            b["keep_output"] = keep2
             tb = run_e2e(b)
             ladim.append(tb)
             pair.append(dict(ev="runB", kind="restart", astart=base["start"], astop=base["stop"], adt=base["dt"], restart_time=rtime if not base["rev"] else -rtime,
                              fromidx=f["idx"], **_signed(flatten(tb), base["rev"])))
             n += 1
+            # the chain goes on: a third run warm-started from the FIRST file the restarted run completed must still be the
+            # uninterrupted run (file names continue, identifiers continue, the restarted run's files are valid restart files)
+            feb = next((e for e in tb if e["ev"] == "files"), None)
+            nrec2 = nrec + base["numrec"]
+            pos = [k for k, g in enumerate(fe["files"]) if g["idx"] == f["idx"] + 1]
+            if (sc.get("chain", True) and n == 1 and feb and feb["files"] and len(feb["files"][0]["recs"]) == base["numrec"]
+                    and nrec2 <= len(outs) and pos and len(fe["files"][pos[0]]["recs"]) == base["numrec"]):
+                o2 = outs[nrec2 - 1]
+                rstep2, f2 = o2["step"], fe["files"][pos[0]]
+                rtime2 = sim2t(base, rstep2)
+                if abs(base["stop"] - rtime2) // base["dt"] >= 1:
+                    snap2 = o2["snap"]
+                    alive2 = [i for i, a in enumerate(snap2["alive"]) if a]
+                    parts2 = [dict(pid=snap2["pid"][i], x=snap2["x"][i], y=snap2["y"][i], z=snap2["z"][i], alive=True, active=True,
+                                   farm=snap2["farm"][i], age=snap2["age"][i]) for i in alive2]
+                    born2 = [dict(rt=f2["pv_release_time"][p], src=f2["pv_src"][p]) for p in range(min(snap2["npid"], len(f2["pv_src"])))]
+                    c = dict(sc["base"])
+                    c.pop("keep_output", None)
+                    c["start"] = rtime2
+                    c["kill"] = [[s - rstep2, p] for s, p in base["kill"] if s - rstep2 >= 0]
+                    c["killfarm"] = [[s - rstep2, p] for s, p in base.get("killfarm", []) if s - rstep2 >= 0]
+                    c["freeze"] = []
+                    c["extra_files"] = {"restart_in.nc": os.path.join(keep2, "out_%03d.nc" % f2["idx"])}     # written by the RESTARTED run
+                    c["warm"] = dict(name="restart_in.nc", idx=f2["idx"], init=dict(parts=parts2, npid=snap2["npid"], born=born2))
+                    c["outname"] = "out_%03d.nc" % (f2["idx"] + 1)
+                    tc = run_e2e(c)
+                    ladim.append(tc)
+                    pair.append(dict(ev="runB", kind="restart", astart=base["start"], astop=base["stop"], adt=base["dt"],
+                                     restart_time=rtime2 if not base["rev"] else -rtime2, fromidx=f2["idx"], **_signed(flatten(tc), base["rev"])))
+            shutil.rmtree(keep2, ignore_errors=True)
         if base["rev"]:
             pair[1] = dict(ev="runA", **_signed(flatten(ta), True))
         return dict(ladim=ladim, pair=pair, nrestarts=n)
